@@ -28,6 +28,11 @@
    S8  ... :1550  for node in elem_nodes: rewire own inputs through trans_in_map, THEN
          _refresh_elementwise_output_shape(node), which reads the CURRENT shapes of the node's inputs -
          among them outputs of other members of elem_nodes        model site_refresh         REFUTED
+         [code up to /repo commit aca2665; FIXED in 77c9ea7, see S8']
+   S8' (77c9ea7) the loop over elem_nodes only rewires the member's own inputs (model site_rewire_map,
+         PROVED); the refresh follows as `for node in nodes: if node in elem_nodes: refresh(node)` - a loop
+         over the graph's node LIST in which the set is used for membership only
+                                                                  model site_refresh_graph_order PROVED
          (order matters whenever one member feeds another member, which is the normal case because
           elem_nodes is a connected elementwise DAG; pass 0 of the same function does the same refresh
           in graph order `for node in nodes: if node in elem_nodes` (:1644) - this site does not.)
@@ -45,7 +50,10 @@
    S14 plugins/plugin_system.py:952  FunctionPlugin._lower_and_call  for pname in call_param_names:
          (a set of STRINGS - order is a function of PYTHONHASHSEED) appends to the lists that become
          graph inputs / function-call inputs                      model site_append          REFUTED
-         (order matters as soon as two names pass the filter)
+         (order matters as soon as two names pass the filter)   [up to aca2665; FIXED in 77c9ea7, see S14']
+   S14' (77c9ea7) `for pname in sorted(call_param_names):` - the appended sequence is a function of the
+         sorted list, which is the same for every iteration order of the set
+                                                   model sorted_canonical / site_append_sorted   PROVED
    S15 converter/function_scope.py:46  FunctionRegistry.all  list(self._defs.values()): a dict keyed by
          FunctionKey - dicts iterate in INSERTION order, i.e. the order of first lowering; no set.
    Sets used only for membership tests (allowed_nodes, visited_values, add_set, visited_adds,
@@ -506,6 +514,167 @@ Proof.
   - apply Permutation_nil in HF. now rewrite HF.
   - apply Permutation_length_1_inv in HF. now rewrite HF.
 Qed.
+
+(* ------------------------------------------------------------------------------------------- *)
+(** ** S8' (after /repo 77c9ea7): rewire in set order, refresh in GRAPH order                    *)
+(* the loop over the set: each member replaces those of ITS OWN inputs that are keys of trans_in_map *)
+Definition rn_map (d : list (name * name)) (x : name) : name :=
+  match dict_get x d with Some y => y | None => x end.
+Definition subst_node_map (d : list (name * name)) (n : node) : node :=
+  mkNode (n_op n) (n_attrs n) (map (rn_map d) (n_ins n)) (n_caps n) (n_outs n).
+Definition rewire_map_act (d : list (name * name)) (member : name) (g : graph) : graph :=
+  mkGraph (map (fun n => if defines member n then subst_node_map d n else n) (g_nodes g)) (g_outputs g).
+
+Theorem site_rewire_map_order_irrelevant d l l' g :
+  Permutation l l' -> run_order (rewire_map_act d) l g = run_order (rewire_map_act d) l' g.
+Proof.
+  intro HP. apply fold_order_irrelevant; auto. intros a b s. unfold rewire_map_act; simpl. f_equal.
+  rewrite !map_map. apply map_ext. intro n. unfold defines.
+  destruct (mem a (n_outs n)) eqn:Ea, (mem b (n_outs n)) eqn:Eb; simpl; rewrite ?Ea, ?Eb; reflexivity.
+Qed.
+
+(* the refresh: `for node in nodes: if node in elem_nodes: refresh(node)`.  [nodes] is the graph's node
+   list (members as (output, inputs)); the set only answers membership questions, so the sequence of
+   refreshes - and with it the resulting annotation, as a function - is the same for every order *)
+Definition refresh_in_graph_order (F : list nat -> nat) (elems : list name)
+  (nodes : list (name * list name)) (sh : shapes) : shapes :=
+  run_order (refresh_act F) (filter (fun m => mem (fst m) elems) nodes) sh.
+
+Theorem site_refresh_graph_order_set_irrelevant F elems elems' nodes sh :
+  Permutation elems elems' ->
+  refresh_in_graph_order F elems nodes sh = refresh_in_graph_order F elems' nodes sh.
+Proof.
+  intro HP. unfold refresh_in_graph_order. f_equal.
+  apply filter_ext. intro m. now apply mem_perm.
+Qed.
+
+(* on the witness that refutes the old shape, the new shape gives the intended annotation whatever the
+   set order *)
+Example refresh_graph_order_on_witness :
+  shapes_on [10; 11] (refresh_in_graph_order first_input_shape [11; 10] refresh_witness refresh_witness_sh) = [1; 1] /\
+  shapes_on [10; 11] (refresh_in_graph_order first_input_shape [10; 11] refresh_witness refresh_witness_sh) = [1; 1].
+Proof. split; reflexivity. Qed.
+
+(* ------------------------------------------------------------------------------------------- *)
+(** ** S14' (after /repo 77c9ea7): iteration over sorted(<set>)                                  *)
+(* sorted() returns the members in the order of a total order on them: a canonical list, the same for
+   every iteration order of the set.  General statement over an abstract decidable total order; the
+   instance for strings (lists of code points, compared lexicographically as Python compares str) below. *)
+Section Sorted.
+Variable A : Type.
+Variable leb : A -> A -> bool.
+Hypothesis leb_total : forall a b, leb a b = true \/ leb b a = true.
+Hypothesis leb_antisym : forall a b, leb a b = true -> leb b a = true -> a = b.
+Hypothesis leb_trans : forall a b c, leb a b = true -> leb b c = true -> leb a c = true.
+
+Fixpoint insert_sorted (x : A) (l : list A) : list A :=
+  match l with [] => [x] | y :: r => if leb x y then x :: l else y :: insert_sorted x r end.
+Definition sort_list (l : list A) : list A := fold_right insert_sorted [] l.
+
+Inductive sorted_by : list A -> Prop :=
+| sorted_nil : sorted_by []
+| sorted_cons a l : sorted_by l -> Forall (fun b => leb a b = true) l -> sorted_by (a :: l).
+
+Lemma insert_perm x l : Permutation (x :: l) (insert_sorted x l).
+Proof.
+  induction l as [|y r IH]; simpl; auto.
+  destruct (leb x y); auto. eapply Permutation_trans; [apply perm_swap|]. now constructor.
+Qed.
+
+Lemma sort_perm l : Permutation l (sort_list l).
+Proof.
+  induction l as [|x r IH]; simpl; auto.
+  eapply Permutation_trans; [|apply insert_perm]. now constructor.
+Qed.
+
+Lemma insert_sorted_ok x l : sorted_by l -> sorted_by (insert_sorted x l).
+Proof.
+  induction 1 as [|a l Hs IH Hall]; simpl.
+  - constructor; constructor.
+  - destruct (leb x a) eqn:E.
+    + constructor; [now constructor|]. constructor; auto.
+      eapply Forall_impl; [|exact Hall]. intros b Hb. eapply leb_trans; eauto.
+    + constructor; auto.
+      assert (Hax : leb a x = true) by (destruct (leb_total a x); congruence).
+      eapply Permutation_Forall; [apply insert_perm|]. constructor; auto.
+Qed.
+
+Lemma sort_sorted l : sorted_by (sort_list l).
+Proof. induction l as [|x r IH]; simpl; [constructor | now apply insert_sorted_ok]. Qed.
+
+Lemma sorted_perm_unique : forall l l', sorted_by l -> sorted_by l' -> Permutation l l' -> l = l'.
+Proof.
+  induction l as [|a l IH]; intros l' Hs Hs' HP.
+  - apply Permutation_nil in HP. now subst.
+  - destruct l' as [|b l']; [apply Permutation_sym, Permutation_nil in HP; discriminate|].
+    inversion Hs as [|? ? Hsl Hal]; subst. inversion Hs' as [|? ? Hsl' Hbl']; subst.
+    assert (a = b).
+    { assert (Ha : In a (b :: l')) by (eapply Permutation_in; [exact HP | now left]).
+      assert (Hb : In b (a :: l)) by (eapply Permutation_in; [apply Permutation_sym; exact HP | now left]).
+      destruct Ha as [->|Ha]; auto. destruct Hb as [->|Hb]; auto.
+      rewrite Forall_forall in Hal, Hbl'. apply leb_antisym; auto. }
+    subst. f_equal. apply IH; auto. eapply Permutation_cons_inv; eassumption.
+Qed.
+
+Theorem sorted_canonical l l' : Permutation l l' -> sort_list l = sort_list l'.
+Proof.
+  intro HP. apply sorted_perm_unique; try apply sort_sorted.
+  eapply Permutation_trans; [apply Permutation_sym, sort_perm|].
+  eapply Permutation_trans; [exact HP | apply sort_perm].
+Qed.
+
+(* the loop of S14 over the sorted list: the appended sequence does not depend on the set's order *)
+Theorem site_append_sorted_order_irrelevant (keep : A -> bool) l l' acc :
+  Permutation l l' ->
+  run_order (append_act keep) (sort_list l) acc = run_order (append_act keep) (sort_list l') acc.
+Proof. intro HP. now rewrite (sorted_canonical l l' HP). Qed.
+End Sorted.
+
+(* strings as lists of code points; Python compares str lexicographically by code point *)
+Fixpoint lex_leb (a b : list nat) : bool :=
+  match a, b with
+  | [], _ => true
+  | _ :: _, [] => false
+  | x :: a', y :: b' => if Nat.ltb x y then true else if Nat.ltb y x then false else lex_leb a' b'
+  end.
+
+Lemma lex_leb_total a b : lex_leb a b = true \/ lex_leb b a = true.
+Proof.
+  revert b. induction a as [|x a IH]; intros [|y b]; simpl; auto.
+  destruct (Nat.ltb_spec x y), (Nat.ltb_spec y x); auto; lia.
+Qed.
+
+Lemma lex_leb_antisym a b : lex_leb a b = true -> lex_leb b a = true -> a = b.
+Proof.
+  revert b. induction a as [|x a IH]; intros [|y b]; simpl; auto; try discriminate.
+  destruct (Nat.ltb_spec x y), (Nat.ltb_spec y x); try discriminate; try lia.
+  intros H1 H2. assert (x = y) by lia. subst. f_equal. now apply IH.
+Qed.
+
+Lemma lex_leb_trans a b c : lex_leb a b = true -> lex_leb b c = true -> lex_leb a c = true.
+Proof.
+  revert b c. induction a as [|x a IH]; intros [|y b] [|z c]; simpl; auto; try discriminate.
+  destruct (Nat.ltb_spec x y), (Nat.ltb_spec y x), (Nat.ltb_spec y z), (Nat.ltb_spec z y),
+           (Nat.ltb_spec x z), (Nat.ltb_spec z x); try discriminate; try lia; auto.
+  apply IH.
+Qed.
+
+Theorem sorted_canonical_strings (l l' : list (list nat)) :
+  Permutation l l' -> sort_list _ lex_leb l = sort_list _ lex_leb l'.
+Proof. apply sorted_canonical; [apply lex_leb_total | apply lex_leb_antisym | apply lex_leb_trans]. Qed.
+
+Theorem site_append_sorted_strings_order_irrelevant (keep : list nat -> bool) l l' acc :
+  Permutation l l' ->
+  run_order (append_act keep) (sort_list _ lex_leb l) acc = run_order (append_act keep) (sort_list _ lex_leb l') acc.
+Proof.
+  apply site_append_sorted_order_irrelevant; [apply lex_leb_total | apply lex_leb_antisym | apply lex_leb_trans].
+Qed.
+
+(* "other" < "train_flag": whatever order the set yields, the appended inputs are other, train_flag *)
+Example sorted_names_example :
+  let other := [111; 116; 104; 101; 114] in let train_flag := [116; 114; 97; 105; 110; 95; 102; 108; 97; 103] in
+  sort_list _ lex_leb [train_flag; other] = [other; train_flag] /\ sort_list _ lex_leb [other; train_flag] = [other; train_flag].
+Proof. split; reflexivity. Qed.
 
 (* ------------------------------------------------------------------------------------------- *)
 (** * B. generated names are a function of the request                                          *)
